@@ -422,8 +422,9 @@ def check_formatter(cx, inp):
     eval_built_url(cx, FN_FORMATTER, inp, r[1], base, path, eff_args, fragment, ext)
 
 
-KEYS = ["a", "b", "a b", "a&b", "k=", "#h", "q?", "100%", "c+d", u"é", "x/y"]
-VALS = ["v", "", "x y", "a&b=c", "#", "?", "%41", "+", u"é", 0, 1, 14, 1.5, -2.0, True, False, None]
+# incl. text that is NOT in Unicode normal form C (combining acute, Kelvin / Angstrom signs): "by str()" means the exact characters
+KEYS = ["a", "b", "a b", "a&b", "k=", "#h", "q?", "100%", "c+d", u"é", "x/y", u"e\u0301"]
+VALS = ["v", "", "x y", "a&b=c", "#", "?", "%41", "+", u"é", 0, 1, 14, 1.5, -2.0, True, False, None, u"cafe\u0301", u"\u212a\u212b"]
 KEYS_S = ["a", "a b", "a&b", "k=", "100%", u"é"]
 VALS_S = ["v", "", "x y", "a&b=c", "%41", 0, 1.5, True, False, None]
 
